@@ -52,9 +52,12 @@ type srvBlock struct {
 	hash  []byte // Block.Hash() of the block decoded as its own type (post-Byron)
 }
 
-// sibling: the same block with the last byte of its header flipped (post-Byron:
-// the tail of the KES signature) -- same era, same shape, different identity.
-func sibling(block []byte) ([]byte, error) {
+// sibling: the same block with one flipped byte inside its header -- same era,
+// same shape, different identity.  Post-Byron: the last byte of the header (the
+// tail of the KES signature).  Byron: the last byte of the first 32-byte string
+// of the header (the previous-block hash); the header's last byte is structure
+// there.
+func sibling(block []byte, byron bool) ([]byte, error) {
 	hdr, err := headerOf(block)
 	if err != nil {
 		return nil, err
@@ -64,7 +67,19 @@ func sibling(block []byte) ([]byte, error) {
 		return nil, fmt.Errorf("header not found at the start of the block")
 	}
 	out := bytes.Clone(block)
-	out[idx+len(hdr)-1] ^= 0x5a
+	if byron {
+		p := bytes.Index(hdr, []byte{0x58, 0x20})
+		if p < 0 || p+34 > len(hdr) {
+			return nil, fmt.Errorf("no 32-byte string in the header")
+		}
+		out[idx+p+2+31] ^= 0x5a
+	} else {
+		out[idx+len(hdr)-1] ^= 0x5a
+	}
+	var probe cbor.RawMessage
+	if n, err := cbor.Decode(out, &probe); err != nil || n != len(out) {
+		return nil, fmt.Errorf("sibling is not well-formed CBOR: %v", err)
+	}
 	return out, nil
 }
 
@@ -86,7 +101,7 @@ func serveBlocks(rep *vh.Reporter, repo string) map[string]*srvBlock {
 			b := &srvBlock{name: f.Name, typ: t, bytes: f.Bytes}
 			key := f.Kind
 			if sib {
-				sb, err := sibling(f.Bytes)
+				sb, err := sibling(f.Bytes, t < 2)
 				if err != nil {
 					rep.Dead("sibling of %s: %v", f.Name, err)
 				}
